@@ -1,10 +1,117 @@
 package main
 
-import "verifharness/lib/ev"
+// Concurrent half of C04: two requests race on one real key manager whose packages (ekm and
+// eth2-key-manager/signer) are built with sync -> vsync, so every lock operation is a scheduling
+// point. Every interleaving with <= B preemptions is executed; the oracle is the same reference on
+// the set of released signatures.
 
-// Concurrent half of C04 (E2, cooperative scheduler over ekm + eth2-key-manager/signer:
-// concurrent signing requests for one share, Sign ∥ RemoveShare+AddShare) — added separately.
-// It reuses world/apply and the reference oracle (refAttestation / refBlock) of this package.
-func conc(r *ev.Run, exhaustive *bool) {}
+import (
+	"fmt"
+	"sort"
+	"strings"
 
-func replayConc(r *ev.Run, v ev.Violation) { ev.Fatal("no concurrent replay yet") }
+	"github.com/bloxapp/ssv/zzverif/vsched"
+
+	"verifharness/lib/dfs"
+	"verifharness/lib/ev"
+)
+
+type concScenario struct {
+	name   string
+	prefix []op
+	racing [][]op // one op list per goroutine
+}
+
+func concScenarios() []concScenario {
+	pre := []op{{K: "add", Sh: 0}, {K: "epoch+"}, {K: "epoch+"}, {K: "epoch+"}}
+	return []concScenario{
+		{"same target, two roots", pre, [][]op{{{K: "att", S: 1, T: 2, V: 0}}, {{K: "att", S: 1, T: 2, V: 1}}}},
+		{"surrounding pair", pre, [][]op{{{K: "att", S: 1, T: 2, V: 0}}, {{K: "att", S: 0, T: 3, V: 1}}}},
+		{"surrounded pair", pre, [][]op{{{K: "att", S: 0, T: 3, V: 0}}, {{K: "att", S: 1, T: 2, V: 1}}}},
+		{"identical attestation twice", pre, [][]op{{{K: "att", S: 1, T: 2, V: 0}}, {{K: "att", S: 1, T: 2, V: 0}}}},
+		{"two blocks for one slot", pre, [][]op{{{K: "blk", Slot: 6, V: 0}}, {{K: "blk", Slot: 6, V: 1}}}},
+		{"attestation and block", pre, [][]op{{{K: "att", S: 1, T: 2, V: 0}}, {{K: "blk", Slot: 6, V: 0}}}},
+		{"sign vs remove+add", pre, [][]op{{{K: "att", S: 1, T: 2, V: 0}, {K: "att", S: 1, T: 2, V: 1}}, {{K: "remove", Sh: 0}, {K: "add", Sh: 0}}}},
+		{"sign vs reactivate", pre, [][]op{{{K: "att", S: 1, T: 2, V: 0}, {K: "att", S: 1, T: 3, V: 1}}, {{K: "reactivate", Sh: 0}}}},
+		{"three signers, one target", pre, [][]op{{{K: "att", S: 1, T: 2, V: 0}}, {{K: "att", S: 1, T: 2, V: 1}}, {{K: "att", S: 0, T: 2, V: 1}}}},
+	}
+}
+
+func conc(r *ev.Run, exhaustive *bool) {
+	bound := 2
+	if r.Thorough() {
+		bound = 3
+	}
+	w := newWorld()
+	outcomes := map[string]int{}
+	schedules, deadlocks, maxPoints, done := 0, 0, 0, 0
+	scs := concScenarios()
+	for si, sc := range scs {
+		var outs []outcome
+		var labels []string
+		e := &dfs.Explorer{Bound: bound, Stop: r.Expired,
+			Body: func() {
+				w.reset(2)
+				for _, o := range sc.prefix {
+					w.apply(o)
+				}
+				outs, labels = nil, nil
+				for _, ops := range sc.racing {
+					ops := ops
+					vsched.Go(func() {
+						for _, o := range ops {
+							out := w.apply(o)
+							outs = append(outs, out)
+							labels = append(labels, o.String()+"="+out.Label)
+						}
+					})
+				}
+			},
+			Check: func(x *vsched.Execution, choices []int) {
+				l := append([]string(nil), labels...)
+				sort.Strings(l)
+				key := sc.name + ": " + strings.Join(l, " | ")
+				if x.Deadlock {
+					// eth2-key-manager's SimpleSigner takes the per-key lock while holding mapLock and
+					// needs mapLock to unlock: two signers of one account and operation can deadlock.
+					// No signature is released by a blocked request: counted, not a C04 violation.
+					deadlocks++
+					key += " [deadlock: " + strings.Join(x.Blocked, ",") + "]"
+				}
+				outcomes[key]++
+				for _, out := range outs {
+					if out.Viol != "" {
+						r.Violate("conc "+out.Viol, out.What+" [concurrent scenario: "+sc.name+"]", "c04-conc",
+							map[string]interface{}{"scenario": si, "name": sc.name, "choices": choices, "outcomes": l}, nil, nil)
+					}
+				}
+			}}
+		e.Explore()
+		schedules += e.Executions
+		if e.MaxPoints > maxPoints {
+			maxPoints = e.MaxPoints
+		}
+		if e.EngineErr != "" {
+			ev.Fatal("scheduler: %s (scenario %s)", e.EngineErr, sc.name)
+		}
+		if e.Capped {
+			*exhaustive = false
+			r.CapHit(fmt.Sprintf("deadline: %d of %d concurrent scenarios", done, len(scs)))
+			break
+		}
+		done++
+	}
+	r.Add("evaluations", schedules)
+	r.Add("transitions", schedules)
+	r.Set("concurrent_scenarios", done)
+	r.Set("concurrent_schedules", schedules)
+	r.Set("concurrent_preemption_bound", bound)
+	r.Set("concurrent_max_choice_points", maxPoints)
+	r.Set("concurrent_deadlocked_schedules_third_party_lock_order", deadlocks)
+	r.Set("concurrent_outcomes", outcomes)
+	r.Assume("concurrent half: ekm/*.go and eth2-key-manager/signer/validator_signer.go built with sync -> vsync (every lock operation a scheduling point); 2-3 racing requests after a fixed prefix; schedules that end in the third-party lock-order deadlock release nothing and are counted, not reported")
+}
+
+func replayConc(r *ev.Run, v ev.Violation) {
+	ev.Fatal("concurrent artefacts: the trace lists the scenario and the choice sequence; re-run the check")
+}
